@@ -65,6 +65,10 @@ CLAIMED = {
          "nearest entity above' formula on rendered documents; parse_features/collect_feature_locations/@listfile on real scratch files for "
          "every line 0..EOF+2 (and bare names), all pairs, several files; name selection through real runs", "DESIGN.md 4/C10",
          "symbolic execution of real code + z3 (symbolic query line; solver-enumerated locations for the file wrapper)"),
+ "C17": ("the real RerunFormatter attached to real runs (outcomes, --stop, hook-fault position symbolic): listed locations == scenarios with "
+         "failed/error-class status in run order, stale file removal, and the closed loop rerun file -> collect_feature_locations -> "
+         "parse_features selects exactly the listed scenarios (incl. files with same-named scenarios)", "DESIGN.md 4/C17",
+         "symbolic execution of real code + z3 (path space by solver, per-path report comparison)"),
 }
 NA_REASON = "check not built yet in this round (planned, see DESIGN.md section 4)"
 checks = []
